@@ -7,23 +7,25 @@ from vlib import vh_batch, drv_batch, enc, dec
 MANIFEST = dict(
     text="Lean theorems over tables regenerated from the source (valid_ident regex, the keyword arrays of keywords.rs and the sqlparser "
          "reserved lists it pulls in, quote character / always-quoted per dialect, the name-generator prefixes) and mirrors of "
-         "translate_ident_part, sqlparser's Ident printer, assign_names and the anchor_split renaming loop: an identifier is emitted bare only "
-         "if it matches the regex and is no keyword, and every SQLite reserved word is a keyword (bare_never_sqlite_reserved); the emitted "
-         "identifier reads back as exactly the name for every name without a doubled or backslash-preceded quote character "
-         "(ident_roundtrip_partial), for EVERY name under plain doubling or after a one-line repair (ident_roundtrip_std, "
-         "ident_roundtrip_patched), but not as the code is (ident_roundtrip_counterexample); names assigned by assign_names are pairwise "
-         "distinct (assign_names_fresh) and named declarations that come first in id order keep their names (assign_names_keeps_leading), but "
-         "a named extern table that comes after an anonymous declaration is renamed (assign_names_keeps_user_counterexample); generated ids "
-         "are above all loaded ids (idgen_load_fresh); the anchor_split renaming yields distinct names unless a user column looks like a "
-         "future generated name (split_names_unique_partial / split_names_unique_counterexample). Tied to the code by function-level runs of "
-         "the hooks translate_ident_part / is_keyword on all keywords, regex boundary strings and random Unicode for all 12 dialects; by "
-         "predicting CTE names from the RQ table list; and by an ORACLE on SQLite: programs whose tables, aliases and columns are drawn from "
-         "keywords, mixed case, spaces, quotes, non-ASCII, table_0..3, _expr_0..3 in every position, executed against tables and columns "
-         "created with those exact names whose every cell is tagged with its origin; for all 12 dialects the SQL must parse with that "
-         "dialect's sqlparser and carry the exact names as identifier tokens.",
+         "translate_ident_part (quote character doubled), sqlparser's Ident printer, assign_names and the anchor_split renaming loop: an "
+         "identifier is emitted bare only if it matches the regex and is no keyword, and every SQLite reserved word is a keyword "
+         "(bare_never_sqlite_reserved); a quoted identifier is its name with the quote character doubled (emit_ident_eq_doubling: doubling then "
+         "sqlparser's 'may already be escaped' printer = plain doubling) and for every dialect the emitted identifier reads back as exactly the "
+         "name for EVERY name except a bare one with a leading $ (ident_roundtrip_partial; ident_roundtrip_dollar_counterexample is the open "
+         "finding that keeps the full statement false); names assigned by assign_names are pairwise distinct (assign_names_fresh) and named "
+         "declarations that come first in id order keep their names (assign_names_keeps_leading), but a named extern table that comes after an "
+         "anonymous declaration is renamed (assign_names_keeps_user_counterexample); generated ids are above all loaded ids (idgen_load_fresh); "
+         "the anchor_split renaming yields distinct names unless a user column looks like a future generated name (split_names_unique_partial / "
+         "split_names_unique_counterexample). Tied to the code by function-level runs of the hooks translate_ident_part / is_keyword on all "
+         "keywords, regex boundary strings and random Unicode for all 12 dialects; by predicting CTE names from the RQ table list; and by an "
+         "ORACLE on SQLite: programs whose tables, aliases and columns are drawn from keywords, mixed case, spaces, quotes, non-ASCII, "
+         "table_0..3, _expr_0..3 in every position, executed against tables and columns created with those exact names whose every cell is "
+         "tagged with its origin; for all 12 dialects the SQL must parse with that dialect's sqlparser and carry the exact names as identifier "
+         "tokens.",
     note="names inside s-strings are opaque SQL and outside the property (a generated CTE name can capture a table named only inside an "
          "s-string); case folding of bare identifiers by the database is not modelled (prqlc emits bare only lower-case names); the 11 "
-         "non-SQLite dialects are judged by sqlparser's parser, not by a database.",
+         "non-SQLite dialects are judged by sqlparser's parser, not by a database. Fixed in /repo: quote characters inside quoted identifiers "
+         "(3b64e89), table qualifier vs column alias in deduplicate_select_items (d06ca49).",
     technique="Lean 4 proof over regenerated regex/keyword/dialect tables + hook-level differential run + origin-tagged SQLite oracle",
     ref="4/C09")
 
@@ -131,13 +133,26 @@ def cte_names(ans):
 
 
 def ident_class(dialect, name, quote):
-    """known-finding predicates for identifier quoting (call site translate_ident_part + predicate on the name)"""
-    if quote + quote in name or "\\" + quote in name:
-        return "ident-already-escaped-heuristic"
+    """finding classes for identifier quoting (call site translate_ident_part + predicate on the name).  Only ids `open` in
+    known_findings.json excuse a failure; `ident-already-escaped-heuristic` is fixed (3b64e89) and is reported again if it returns."""
     if name.startswith("$") and re.fullmatch(r"[a-z0-9_$]+", name) and dialect != "snowflake":
         return "dollar-leading-identifier-emitted-bare"
     if dialect == "ansi" and name.startswith("_") and re.fullmatch(r"[a-z0-9_$]+", name):
         return "underscore-leading-identifier-bare-on-ansi"
+    if quote + quote in name or "\\" + quote in name:
+        return "ident-already-escaped-heuristic"
+    return None
+
+
+CLASS_PRIORITY = ["dollar-leading-identifier-emitted-bare", "underscore-leading-identifier-bare-on-ansi", "ident-already-escaped-heuristic"]
+
+
+def pick_class(classes):
+    """one failure, several candidate causes: the open, independently sufficient causes first (a bare `$d` or a bare `_x` on ansi breaks the
+    statement whatever else it contains); the fixed quote-character class only when nothing else explains the failure"""
+    for c in CLASS_PRIORITY:
+        if c in classes:
+            return c
     return None
 
 
@@ -185,12 +200,13 @@ def suite_hooks(ctx, br, S_ident, S_kw, rng, thorough, stats):
         impl = vh_batch([{"op": "hook_ident", "ident": n, "dialect": d} for n in names])
         implk = vh_batch([{"op": "hook_is_keyword", "ident": n, "dialect": d} for n in names])
         mod = drv_batch([f"ident\t{d}\t{enc(n)}" for n in names])
+        modv = drv_batch([f"ident_value\t{d}\t{enc(n)}" for n in names])
         modk = drv_batch([f"is_keyword\t{d}\t{enc(n)}" for n in names])
-        for n, i, ik, m, mk in zip(names, impl, implk, mod, modk):
+        for n, i, ik, m, mk, mv in zip(names, impl, implk, mod, modk, modv):
             ctx.case(("hook", d, n), nontrivial=bool(n.strip()))
             want = "bare" if i.get("quote") is None else f"quoted {ord(i['quote'])}"
             stats["hook"][want.split(" ")[0]] += 1
-            if i.get("value") != n or not m.startswith(want + " ") and m != want + " ":
+            if i.get("value") != dec(mv) or not m.startswith(want + " ") and m != want + " ":
                 nbad += 1
                 ctx.disagreement("translate_ident_part", f"hook and model differ on {n!r} for {d}", {"ident": n, "dialect": d, "impl": i, "model": m})
             if str(ik.get("keyword")).lower() != mk:
@@ -276,16 +292,21 @@ def suite_oracle(ctx, br, progs, con, stats, dialects, label):
         ok = got is not None and (got == want if ordered else sorted(map(repr, got)) == sorted(map(repr, want)))
         if not ok:
             fid = None
-            bad = [ident_class("sqlite", n, '"') for n in used if ident_class("sqlite", n, '"')]
-            if bad:
-                fid = bad[0]
+            bad = pick_class([ident_class("sqlite", n, '"') for n in used])
+            if bad and bad != "ident-already-escaped-heuristic":
+                fid = bad
             elif renamed:
                 fid = "extern-table-renamed-by-assign-names"
-            elif tid.startswith("split-") and (re.fullmatch(r"_expr_\d+", names["C"]) or re.fullmatch(r"_expr_\d+", names["D"])):
+            elif ((tid.startswith("split-") and (re.fullmatch(r"_expr_\d+", names["C"]) or re.fullmatch(r"_expr_\d+", names["D"])))
+                  or (sql.startswith("WITH ") and sum(1 for p_ in "CDA" if p_ in tid_positions(tid) and re.fullmatch(r"_expr_\d+", names[p_])) >= 2)):
+                # a split whose columns hold a duplicate / a column still to be named, next to user columns called like generated names:
+                # the first generated name clashes, the regenerated one is not re-checked (two user columns _expr_0/_expr_1 suffice)
                 fid = "split-regenerated-name-not-rechecked"
             elif any(re.fullmatch(r"_expr_\d+", names[p_]) and re.search(r" AS " + names[p_] + r"\b", sql + " ") is None and names[p_] + "." in sql
                      for p_ in "TU" if p_ in tid_positions(tid)):
                 fid = "dedup-conflates-qualifier-and-alias"
+            elif bad:
+                fid = bad          # the (fixed) quote-character class: only when no open cause explains the failure
             stats["fail"][("sqlite", tid, fid)] += 1
             ctx.oracle_failure(fid, f"{tid}: names bind to the wrong objects or the statement fails: {err or str(got)[:160]}",
                                {"prql": src, "dialect": "sqlite", "sql": sql, "expected": want, "observed": got if got is not None else err},
@@ -315,8 +336,7 @@ def suite_oracle(ctx, br, progs, con, stats, dialects, label):
         vals = {w["value"] for w in words(t)}
         missing = [n for n in used if n not in vals]
         if t.get("statements") != 1 or missing:
-            bad = [ident_class(d, n, quote_of.get(d, '"')) for n in used if ident_class(d, n, quote_of.get(d, '"'))]
-            fid = bad[0] if bad else sql_class(d, a["sql"])
+            fid = pick_class([ident_class(d, n, quote_of.get(d, '"')) for n in used] + [sql_class(d, a["sql"])])
             stats["fail"][(d, tid, fid)] += 1
             ctx.oracle_failure(fid, f"sql.{d}: the SQL does not parse or does not carry the names {missing!r} as identifier tokens",
                                {"prql": src, "dialect": d, "sql": a["sql"], "missing": missing, "err": t.get("tokenize_error") or t.get("parse_error")})
@@ -394,9 +414,10 @@ def suite_split_model(ctx, stats):
 
 def run(ctx):
     br = vlib.standard_proof_obligations(ctx, ["PrqlModel.Props.C09"], ["Ident", "Keywords", "Dialects"],
-        required_theorems=["ident_roundtrip_partial", "ident_roundtrip_counterexample", "ident_roundtrip_std", "ident_roundtrip_patched",
-                           "bare_never_sqlite_reserved", "bare_is_regex_and_not_keyword", "assign_names_fresh", "assign_names_keeps_leading",
-                           "assign_names_keeps_user_counterexample", "idgen_load_fresh", "split_names_unique_partial", "split_names_unique_counterexample"])
+        required_theorems=["ident_roundtrip_partial", "ident_roundtrip_dollar_counterexample", "ident_roundtrip_std", "emit_ident_eq_doubling",
+                           "ident_value_doubled", "bare_never_sqlite_reserved", "bare_is_regex_and_not_keyword", "assign_names_fresh",
+                           "assign_names_keeps_leading", "assign_names_keeps_user_counterexample", "idgen_load_fresh",
+                           "split_names_unique_partial", "split_names_unique_counterexample"])
     thorough = ctx.tier == "thorough"
     ctx.rule = ("function level: every keyword of the extracted arrays in 3 casings plus near misses, strings around every edge of the regex's character "
                 "classes, the name pool, seeded random ASCII/Unicode names, for each of the 12 dialects; a case is one (name, dialect). Oracle: 14 program "
